@@ -151,8 +151,8 @@ Definition run_hist (v : variant) (S : list Z) (i : Z) (hs : list hop) : list (l
   run_trace v init (map (op_of S i) hs).
 Definition hist_okb (v : variant) (S : list Z) (i : Z) (hs : list hop) : bool :=
   trace_okb S hs (run_hist v S i hs).
-Definition hist_ok_variant (d f k y : bool) (S : list Z) (i : Z) (hs : list hop) : bool :=
-  hist_okb (mkVariant d f k y) S i hs.
+Definition hist_ok_variant (d f k y a b : bool) (S : list Z) (i : Z) (hs : list hop) : bool :=
+  hist_okb (mkVariant d f k y a b) S i hs.
 
 (* the new bytes of all SG events, in order (what the stream receives as new data) *)
 Definition delivered (tr : list (list event * Z)) : list Z :=
